@@ -309,6 +309,7 @@ func (c *diskCache) Put(ctx context.Context, kind cache.EntryKind, hash string, 
 		c.mu.Unlock()
 		unreserve = true
 	}
+	verifYield("put.reserved")
 
 	legacy := kind == cache.CAS && c.storageMode == casblob.Identity
 
@@ -336,6 +337,7 @@ func (c *diskCache) Put(ctx context.Context, kind cache.EntryKind, hash string, 
 	}
 
 	r = nil // We read all the data from r.
+	verifYield("put.written")
 
 	if c.proxy != nil {
 		rc, err := os.Open(blobFile)
@@ -457,6 +459,7 @@ func (c *diskCache) availableOrTryProxy(kind cache.EntryKind, hash string, size 
 	if listElem != nil {
 		c.mu.Unlock() // We expect a cache hit below.
 		locked = false
+		verifYield("get.unlocked")
 
 		blobPath := path.Join(c.dir, c.FileLocation(kind, item.legacy, hash, item.size, item.random))
 
@@ -469,6 +472,7 @@ func (c *diskCache) availableOrTryProxy(kind cache.EntryKind, hash string, size 
 				// Enter slow path.
 				fastPath = false
 
+				verifYield("get.slowpath")
 				c.mu.Lock()
 				item, listElem = c.lru.Get(key)
 				if listElem != nil {
@@ -487,6 +491,7 @@ func (c *diskCache) availableOrTryProxy(kind cache.EntryKind, hash string, size 
 				log.Printf("Warning: expected %q to exist on disk (fast path: %t), undersized cache? Last reported error: %v", blobPath, fastPath, err)
 			} else if kind == cache.CAS {
 				var rc io.ReadCloser
+				verifYield("get.opened")
 				if item.legacy {
 					// The file is uncompressed, without a casblob header.
 					_, err = f.Seek(offset, io.SeekStart)
@@ -509,6 +514,7 @@ func (c *diskCache) availableOrTryProxy(kind cache.EntryKind, hash string, size 
 						blobPath, zstd, item.legacy, err)
 					_ = f.Close()
 
+					verifYield("get.remove")
 					c.mu.Lock()
 					c.lru.RemoveElement(listElem)
 					c.mu.Unlock()
@@ -672,6 +678,7 @@ func (c *diskCache) get(ctx context.Context, kind cache.EntryKind, hash string, 
 	defer c.diskWaitSem.Release(1)
 
 	r, foundSize, err := c.proxy.Get(ctx, kind, hash, size)
+	verifYield("fetch.got")
 	if r != nil {
 		defer func() { _ = r.Close() }()
 	}
@@ -738,6 +745,7 @@ func (c *diskCache) get(ctx context.Context, kind cache.EntryKind, hash string, 
 		return nil, -1, internalErr(err)
 	}
 
+	verifYield("fetch.written")
 	unreserve, removeTempfile, err = c.commit(key, legacy, blobFile, size, foundSize, sizeOnDisk, random)
 	if err != nil {
 		_ = rc.Close()
